@@ -5,7 +5,8 @@ import PysnarkModel.Lemmas.PyTotalRun
 Operands below `2^(bl-1)` in absolute value, `bl ≥ 1`, `2^(bl+1) < p` (the domain the harness
 checks totality on) imply the exact bounds of `pyDomBin`, given the operator-specific side
 conditions (positive divisor, non-negative operands of `>>`, `&`, `|`, `^`, bounded public
-exponent / shift count, 0/1 next to a boolean).
+exponent / shift count, non-negative secret exponent / shift count [at most `bl` for `>>`], 0/1 next
+to a boolean).
 -/
 set_option linter.unusedSimpArgs false
 namespace Pysnark
@@ -23,21 +24,22 @@ theorem nzModP_of_abs_lt {p d : Int} (h : |d| < p) : nzModP p d = true := by
     intro hm
     exact h0 (Int.eq_zero_of_abs_lt_dvd (Int.dvd_of_emod_eq_zero hm) h)
 
-/-- the side conditions of an operator beyond the size of its operands -/
-def pySideOk (op : BinOp) (ba bb : Bool) (x y : Int) : Prop :=
+/-- the side conditions of an operator beyond the size of its operands (`sb`: the exponent / shift
+count is a SECRET integer: non-negative, and for `>>` at most the bit length) -/
+def pySideOk (bl : Nat) (op : BinOp) (ba bb sb : Bool) (x y : Int) : Prop :=
   (ba = true → y = 0 ∨ y = 1) ∧ (bb = true → x = 0 ∨ x = 1) ∧
   match op with
   | .truediv => y ≠ 0
   | .floordiv | .mod | .divmod => 0 < y
-  | .pow => y ≤ 300
-  | .lshift => y ≤ 4096
-  | .rshift => 0 ≤ x
+  | .pow => if sb = true then 0 ≤ y else y ≤ 300
+  | .lshift => if sb = true then 0 ≤ y else y ≤ 4096
+  | .rshift => if sb = true then 0 ≤ y ∧ y ≤ bl else 0 ≤ x
   | .band | .bxor | .bor => 0 ≤ x ∧ 0 ≤ y
   | _ => True
 
 theorem pyDomBin_of_small {p : Int} {bl : Nat} (hbl : 1 ≤ bl) (hp : 2 ^ (bl + 1) < p) {op : BinOp}
-    {ba bb : Bool} {x y : Int} (hx : |x| < 2 ^ (bl - 1)) (hy : |y| < 2 ^ (bl - 1))
-    (hs : pySideOk op ba bb x y) : pyDomBin p bl op ba bb x y = true := by
+    {ba bb sb : Bool} {x y : Int} (hx : |x| < 2 ^ (bl - 1)) (hy : |y| < 2 ^ (bl - 1))
+    (hs : pySideOk bl op ba bb sb x y) : pyDomBin p bl op ba bb sb x y = true := by
   obtain ⟨m, rfl⟩ : ∃ m, bl = m + 1 := ⟨bl - 1, by omega⟩
   simp only [Nat.add_sub_cancel] at hx hy
   have e1 : (2 : Int) ^ (m + 1) = 2 * 2 ^ m := by rw [pow_succ]; ring
@@ -70,9 +72,23 @@ theorem pyDomBin_of_small {p : Int} {bl : Nat} (hbl : 1 ≤ bl) (hp : 2 ^ (bl + 
   · simp only [decide_eq_true_eq]; exact ⟨hs, by rw [e1]; omega⟩
   · simp only [decide_eq_true_eq]; exact ⟨hs, by rw [e1]; omega⟩
   · simp only [decide_eq_true_eq]; exact ⟨hs, by rw [e1]; omega⟩
-  · simpa using hs
-  · simpa using hs
-  · exact hbits x hs hx
+  · -- pow
+    cases sb with
+    | true => simpa using hbits y (by simpa using hs) hy
+    | false => simpa using hs
+  · -- lshift
+    cases sb with
+    | true => simpa using hbits y (by simpa using hs) hy
+    | false => simpa using hs
+  · -- rshift
+    cases sb with
+    | true =>
+      simp only [if_true] at hs ⊢
+      simp only [Bool.and_eq_true, decide_eq_true_eq]
+      exact hs
+    | false =>
+      simp only [Bool.false_eq_true, if_false] at hs ⊢
+      exact hbits x hs hx
   · exact ⟨hbits x hs.1 hx, hbits y hs.2 hy⟩
   · exact ⟨hbits x hs.1 hx, hbits y hs.2 hy⟩
   · exact ⟨hbits x hs.1 hx, hbits y hs.2 hy⟩
@@ -82,5 +98,41 @@ theorem pyDomBin_of_small {p : Int} {bl : Nat} (hbl : 1 ≤ bl) (hp : 2 ^ (bl + 
   · exact nzModP_of_abs_lt (by rw [e2] at hp; exact lt_of_lt_of_le (abs_lt.mpr ⟨by omega, by omega⟩) (by omega : 4 * 2 ^ m ≤ p))
   · exact small _ (abs_lt.mpr ⟨by omega, by omega⟩)
   · exact small _ (abs_lt.mpr ⟨by omega, by omega⟩)
+
+/-- the relation asserted by `assert_lt`, … on the reference values -/
+def pyAssertHolds : Meth → Int → Int → Prop
+  | .assertLt, x, y => x < y
+  | .assertLe, x, y => x ≤ y
+  | .assertGt, x, y => y < x
+  | .assertGe, x, y => y ≤ x
+  | .assertEq, x, y => x = y
+  | .assertNe, x, y => x ≠ y
+  | _, _, _ => True
+
+theorem pyDomAssertCmp_of_small {p : Int} {bl : Nat} (hbl : 1 ≤ bl) (hp : 2 ^ (bl + 1) < p) {m : Meth}
+    {x y : Int} (hx : |x| < 2 ^ (bl - 1)) (hy : |y| < 2 ^ (bl - 1)) (hr : pyAssertHolds m x y) :
+    pyDomAssertCmp p bl m x y = true := by
+  obtain ⟨k, rfl⟩ : ∃ k, bl = k + 1 := ⟨bl - 1, by omega⟩
+  simp only [Nat.add_sub_cancel] at hx hy
+  have e1 : (2 : Int) ^ (k + 1) = 2 * 2 ^ k := by rw [pow_succ]; ring
+  have e2 : (2 : Int) ^ (k + 1 + 1) = 4 * 2 ^ k := by rw [pow_succ, pow_succ]; ring
+  have hpos : (0 : Int) < 2 ^ k := by positivity
+  have ax := abs_lt.mp hx
+  have ay := abs_lt.mp hy
+  have small : ∀ d : Int, |d| < 2 * 2 ^ k → fitsAbs (k + 1) d = true := fun d hd =>
+    fitsAbs_of_abs_lt (by rw [e1]; exact hd)
+  cases m <;> simp only [pyAssertHolds] at hr <;>
+    simp only [pyDomAssertCmp, Bool.and_eq_true, decide_eq_true_eq]
+  · exact ⟨hr, small _ (abs_lt.mpr ⟨by omega, by omega⟩)⟩
+  · exact ⟨hr, small _ (abs_lt.mpr ⟨by omega, by omega⟩)⟩
+  · exact hr
+  · refine ⟨hr, ?_⟩
+    have hnz : nzModP p (x - y) = true :=
+      nzModP_of_abs_lt (by rw [e2] at hp; exact lt_of_lt_of_le (abs_lt.mpr ⟨by omega, by omega⟩) (by omega : 4 * 2 ^ k ≤ p))
+    rcases nzModP_iff.mp hnz with h0 | h0
+    · exact absurd (by omega : x = y) hr
+    · exact h0
+  · exact ⟨hr, small _ (abs_lt.mpr ⟨by omega, by omega⟩)⟩
+  · exact ⟨hr, small _ (abs_lt.mpr ⟨by omega, by omega⟩)⟩
 
 end Pysnark
